@@ -174,6 +174,7 @@ theorem liveGrps_applyEdit (d : Disk) (v : MView) (e : MRec) (jn sq nf : Nat) :
 /-- the view a job's edit produces is good, once its output tables are on disk -/
 theorem ViewOK.extend {s : St} {d : Disk} {must issued : List Grp} {j : Job} {e : MRec} {v : MView}
     (hok : ViewOK d must issued v) (he : EditOK s d j e v) (hi : ∀ g ∈ issuedGrps s, g ∈ issued)
+    (hmust : ∀ g ∈ must, g ∈ Dur.must s)
     (houts : ∀ o ∈ j.outs, lookup d.tables o.1 = some ⟨o.2, true, false⟩) (nf : Nat) (hnf : v.nf ≤ nf)
     (hnf' : ∀ o ∈ j.outs, o.1 < nf) (hjnf : e.jn.getD v.jn < nf) :
     ViewOK d must issued ⟨applyEdit v.live e, e.jn.getD v.jn, e.sq.getD v.sq, nf⟩ := by
@@ -249,7 +250,7 @@ theorem ViewOK.extend {s : St} {d : Disk} {must issued : List Grp} {j : Job} {e 
     · have hp' := mem_relJournals.1 hp
       by_cases hlt : p.1 < jn'
       · exact Or.inl (List.mem_append_right _
-          (hskip p hp'.1 hp'.2 hlt g (by simp [LogFile.all, hgp])))
+          (hskip p hp'.1 hp'.2 hlt g (by simp [LogFile.all, hgp]) (hmust g hg)))
       · exact Or.inr ⟨p, mem_relJournals.2 ⟨hp'.1, by simp only; omega⟩, hgp⟩
   · show jn' < nf
     exact hjnf
